@@ -105,6 +105,8 @@ def run(run, model, proof):
                 run.count("lookup:%s" % lk, 2048)
             if len(uhs) > 200000:
                 uhs.clear()
+    for _ in range(20 if thorough else 3):
+        cli_lookup_bypass(run, rng)
     run.evaluations += cells
     # distinct cells = configs x 2048 (each config has its own noise word)
     run.nontrivial = set(range(min(cells, 5000000)))
@@ -114,8 +116,47 @@ def run(run, model, proof):
                     model=model.call("consider_table", bytes([64]), b"", b"\0\0")[0x40 * 8:0x40 * 8 + 8]))
 
 
+def cli_lookup_bypass(run, rng):
+    """the look-up exemption through the real command line: hidden, non-serviceable and informational PELs are found by
+    --id, --bmc-id, --plid, --src whatever the id is (0 included)"""
+    import struct
+    import cli_runner
+    import dirgen
+    from props import c04
+    from collections import OrderedDict
+    classes = [("hidden", 0x40, 0x4000), ("not-reported", 0x40, 0x0000), ("informational", 0x00, 0x0000), ("serviceable", 0x40, 0xA000)]
+    ids = [0, 1, 7, 0x50000001, 0xFFFFFFFF]
+    files = []
+    shift = rng.randrange(len(ids))
+    for i, (cls, sev, flags) in enumerate(classes):
+        body = bytes([2, 0, 0, 9, 0, 0, 0, 72]) + b"".join(struct.pack(">I", w) for w in range(8)) + ("BD8D%04X" % (0x1000 + i)).encode().ljust(32, b" ")
+        d = bytearray(c04.mini_pel(b"O", [(b"PS", 1, 1, 0x2000, body)]))
+        d[58] = sev
+        d[66:68] = struct.pack(">H", flags)
+        idv = ids[(i + shift) % len(ids)]        # distinct ids; which class gets id 0 varies
+        d = dirgen.set_ids(bytes(d), eid=0x50000010 + i, plid=0x60000010 + i, obmc=idv)
+        files.append(("%08X_%s" % (0x50000010 + i, cls), d, dict(kind="pel", cls=cls, eid=0x50000010 + i, plid=0x60000010 + i, obmc=idv, src="BD8D%04X" % (0x1000 + i))))
+    with dirgen.TempDir(files) as dd:
+        for name, data, m in files:
+            for opt, arg in (("--bmc-id", str(m["obmc"])), ("-i", "%08X" % m["eid"]), ("--plid", "%08X" % m["plid"]), ("--src", m["src"])):
+                rc, out, err = cli_runner.run_inproc(["-p", dd, opt, arg])
+                run.evaluations += 1
+                run.count("cli-lookup:%s:%s" % (opt, m["cls"]))
+                want = "0x%08X" % m["eid"]
+                try:
+                    j = json.loads(out, object_pairs_hook=OrderedDict)
+                    found = (j.get("Private Header", {}).get("Entry Id") == want) if opt in ("--bmc-id", "-i") else want in j
+                except Exception:  # noqa: BLE001
+                    found = False
+                if rc != 0 or not found:
+                    run.violation("lookup-bypass:cli:" + opt, "peltool %s %s does not show the %s PEL it names (no selection options given)" % (opt, arg, m["cls"]),
+                                  dict(kind="S", fn="cli-lookup", argv=[opt, arg], files=[[f[0], f[1].hex()] for f in files], stdout=out[:300], stderr=err[-200:], rc=rc))
+
+
 def replay(run, model, path):
     r = json.load(open(path))
+    if r.get("fn") == "cli-lookup":
+        return cli_lookup_bypass(run, run.rng)
     if r.get("fn") != "considerPEL":
         return globals()["run"](run, model, dict(ok=True))
     from pel.peltool import peltool
